@@ -1600,10 +1600,12 @@ class SSHConnection(SSHPacketHandler, asyncio.Protocol):
             # Accept version 2.0, or 1.99 if we're a client
             if self.is_server():
                 self._client_version = version
-                self.set_extra_info(client_version=version.decode('ascii'))
+                self.set_extra_info(client_version=version.decode(
+                    'ascii', errors='backslashreplace'))
             else:
                 self._server_version = version
-                self.set_extra_info(server_version=version.decode('ascii'))
+                self.set_extra_info(server_version=version.decode(
+                    'ascii', errors='backslashreplace'))
 
             self.logger.debug1('Received version %s', version)
 
